@@ -552,6 +552,63 @@ func (n *Net) Confirm(d int, h common.Hash) types.SignData {
 	return types.BytesToSignData(sig)
 }
 
+// keyByAddress finds the deterministic key (detKey) that owns addr among the keys made so far.
+func keyByAddress(addr common.Address) *keyInfo {
+	keyMu.Lock()
+	defer keyMu.Unlock()
+	var names []string
+	for n := range keyCache {
+		names = append(names, n)
+	}
+	sort.Strings(names)
+	for _, n := range names {
+		if keyCache[n].Addr == addr {
+			return keyCache[n]
+		}
+	}
+	return nil
+}
+
+// SignWithNonce makes a canonical (low-s) secp256k1 signature [r|s|v] over hash with the caller's
+// nonce k instead of the deterministic RFC 6979 one: a SECOND valid signature of the same signer
+// over the same content with other bytes. Returns nil if the result does not recover to the key.
+func SignWithNonce(hash []byte, key *keyInfo, k *big.Int) []byte {
+	curve := crypto.S256()
+	n := curve.Params().N
+	k = new(big.Int).Mod(k, n)
+	if k.Sign() == 0 {
+		return nil
+	}
+	rx, ry := curve.ScalarBaseMult(k.Bytes())
+	r := new(big.Int).Mod(rx, n)
+	if r.Sign() == 0 || rx.Cmp(n) >= 0 {
+		return nil
+	}
+	e := new(big.Int).SetBytes(hash)
+	sv := new(big.Int).Mul(r, key.Key.D)
+	sv.Add(sv, e)
+	sv.Mul(sv, new(big.Int).ModInverse(k, n))
+	sv.Mod(sv, n)
+	if sv.Sign() == 0 {
+		return nil
+	}
+	v := byte(ry.Bit(0))
+	if sv.Cmp(new(big.Int).Rsh(n, 1)) > 0 {
+		sv.Sub(n, sv)
+		v ^= 1
+	}
+	sig := make([]byte, 65)
+	rb, sb := r.Bytes(), sv.Bytes()
+	copy(sig[32-len(rb):32], rb)
+	copy(sig[64-len(sb):64], sb)
+	sig[64] = v
+	pub, err := crypto.SigToPub(hash, sig)
+	if err != nil || crypto.PubkeyToAddress(*pub) != key.Addr {
+		return nil
+	}
+	return sig
+}
+
 // ReencodeSig returns the other valid encoding (r, n-s, v^1) of an ECDSA signature.
 func ReencodeSig(sig []byte) []byte {
 	out := make([]byte, len(sig))
